@@ -1,6 +1,6 @@
 (** Entry.v — one entry point per model function for the correspondence check:
     the harness sends  ["op", arg]  as one line of ASCII JSON, the model answers one line. *)
-From InToto.Model Require Import Base Json Rule.
+From InToto.Model Require Import Base Json Rule Glob Rules.
 
 Definition s_ok : str := [111;107]%N.
 Definition jok (j : json) : json := JDict [(s_ok, j)].
@@ -13,7 +13,71 @@ Definition op_pack_unpacked : str := [112;97;99;107;95;117;110;112;97;99;107;101
 Definition op_lower : str := [108;111;119;101;114]%N.
 Definition op_upper : str := [117;112;112;101;114]%N.
 
+(* ---- C03 ------------------------------------------------------------------- *)
+Definition s_materials := k_materials.
+Definition s_products := k_products.
+Definition s_name : str := [110;97;109;101]%N.
+Definition s_side : str := [115;105;100;101]%N.
+Definition s_rules : str := [114;117;108;101;115]%N.
+Definition s_links : str := [108;105;110;107;115]%N.
+Definition s_pat : str := [112;97;116]%N.
+Definition s_names : str := [110;97;109;101;115]%N.
+Definition s_err : str := [101;114;114]%N.
+Definition s_trace : str := [116;114;97;99;101]%N.
+
+Definition amap_of_json (j : option json) : amap :=
+  match j with Some (JDict l) => l | _ => [] end.
+
+(** harness-side rendering of a Link object (only the artifact maps matter for rules) *)
+Definition simple_link (name : str) (j : json) : link :=
+  mkLink name (amap_of_json (jget s_materials j)) (amap_of_json (jget s_products j)) (JDict []) (JList []) (JDict []).
+
+Definition links_of_json (j : option json) : links :=
+  match j with
+  | Some (JDict l) => map (fun kv => (fst kv, simple_link (fst kv) (snd kv))) l
+  | _ => []
+  end.
+
+(** queue after each rule (by running the evaluator on every prefix of the rule list) + the final outcome *)
+Definition rules_trace (arg : json) : json :=
+  match jget s_name arg, jget s_side arg, jget s_rules arg with
+  | Some (JStr name), Some (JStr side), Some (JList rules) =>
+      let ls := links_of_json (jget s_links arg) in
+      let sd := if eqs side k_materials then Materials else Products in
+      let upto := fun k => verify_item_rules_glob name sd (firstn k rules) ls in
+      let tr := flat_map (fun k => match upto k with Ok q => [jstr_list q] | Err _ => [] end)
+                         (seq 1 (length rules)) in
+      match upto (length rules) with
+      | Ok q => JDict [(s_ok, jstr_list q); (s_trace, JList tr)]
+      | Err e => match jerr e with
+                 | JDict l => JDict (l ++ [(s_trace, JList tr)])
+                 | j => j
+                 end
+      end
+  | _, _, _ => jerr EUnmodelled
+  end.
+
+Definition fnmatch_op (arg : json) : json :=
+  match jget s_pat arg, jget s_names arg with
+  | Some (JStr pat), Some (JList names) =>
+      match all_strs names with
+      | Some ns =>
+          match mapM (fun n => match glob_match pat n with Some b => Ok (JBool b) | None => Err EUnmodelled end) ns with
+          | Ok bs => jok (JList bs)
+          | Err e => jerr e
+          end
+      | None => jerr EUnmodelled
+      end
+  | _, _ => jerr EUnmodelled
+  end.
+
+Definition op_rules_trace : str := [114;117;108;101;115;95;116;114;97;99;101]%N.
+Definition op_fnmatch : str := [102;110;109;97;116;99;104]%N.
+
 Definition run_op (op : str) (arg : json) : json :=
+  if eqs op op_rules_trace then rules_trace arg
+  else if eqs op op_fnmatch then fnmatch_op arg
+  else
   if eqs op op_lower then match arg with JStr s => jok (JStr (lower s)) | _ => jerr EUnmodelled end
   else if eqs op op_upper then match arg with JStr s => jok (JStr (upper s)) | _ => jerr EUnmodelled end
   else if eqs op op_unpack_rule then jres meaning_json (unpack_rule arg)
